@@ -527,6 +527,8 @@ struct Emitter {
                 }
                 if (const Stmt *C = B->getTerminatorCondition(true))
                     J += ",\"tc\":" + std::to_string(node(C));
+                if (isa<BinaryOperator>(T) || isa<AbstractConditionalOperator>(T))
+                    J += ",\"ts\":" + std::to_string(node(T));
                 if (const auto *GS = dyn_cast<GotoStmt>(T))
                     J += ",\"goto\":" + q(GS->getLabel()->getName());
             }
